@@ -187,6 +187,41 @@ def _grp_alloc_read_locked():
     return "true" if all(id(u) in locked for u in uses) else "false"
 
 
+@fact("mc_receive_queue_ok", "bool", "false")
+def _mc_receive_queue_ok():
+    """MultiChannel.make_receive_queue: every member channel gets setcallback(putreceived[, endmarker=endmarker]); 'no endmarker'
+    is a private sentinel object compared by identity (None, False, 0 are endmarker VALUES); the callback queues (channel, obj)"""
+    f = find("multi.py", "MultiChannel.make_receive_queue")
+    t = _src(f)
+    ok = "if endmarker is NO_ENDMARKER_WANTED:\n                ch.setcallback(putreceived)\n            else:\n                ch.setcallback(putreceived, endmarker=endmarker)" in t
+    ok = ok and "self._queue.put((channel, obj))" in t and _src(f.args.defaults[0]) == "NO_ENDMARKER_WANTED"
+    src = open(os.path.join(SRC, "multi.py")).read()
+    ok = ok and src.count("NO_ENDMARKER_WANTED = object()") == 1
+    return "true" if ok else "false"
+
+
+@fact("grp_lookup_ok", "bool", "false")
+def _grp_lookup_ok():
+    """Group lookup: an int indexes the member list, anything else scans it for the member that IS the key (gateway objects
+    compare by identity: Gateway defines no __eq__) or whose id equals it; membership is lookup; iteration copies the list;
+    Gateway.exit does nothing unless the gateway object is a member; _unregister removes that object"""
+    g = [_src(n) for n in _body_nodoc(find("multi.py", "Group.__getitem__"))]
+    ok = g == ["if isinstance(key, int):\n    return self._gateways[key]", "for gw in self._gateways:\n    if gw == key or gw.id == key:\n        return gw", "raise KeyError(key)"]
+    c = [_src(n) for n in _body_nodoc(find("multi.py", "Group.__contains__"))]
+    ok = ok and c == ["try:\n    self[key]\n    return True\nexcept KeyError:\n    return False"]
+    ok = ok and [_src(n) for n in _body_nodoc(find("multi.py", "Group.__iter__"))] == ["return iter(list(self._gateways))"]
+    ok = ok and [_src(n) for n in _body_nodoc(find("multi.py", "Group.__len__"))] == ["return len(self._gateways)"]
+    cls = find("gateway.py", "Gateway")
+    ok = ok and not any(isinstance(n, ast.FunctionDef) and n.name in ("__eq__", "__hash__") for n in cls.body)
+    base = find("gateway_base.py", "BaseGateway")
+    ok = ok and not any(isinstance(n, ast.FunctionDef) and n.name in ("__eq__", "__hash__") for n in base.body)
+    e = _src(_Strip().visit(__import__("copy").deepcopy(find("gateway.py", "Gateway.exit"))))
+    ok = ok and "if self not in self._group:\n        return\n    self._group._unregister(self)" in e
+    u = _src(find("multi.py", "Group._unregister"))
+    ok = ok and "self._gateways.remove(gateway)" in u
+    return "true" if ok else "false"
+
+
 @fact("grp_explicit_checked", "bool", "false")
 def _grp_explicit_checked():
     """Group.allocate_id rejects (ValueError) an explicit spec.id that is already a member"""
